@@ -42,6 +42,12 @@ func converged(root string, snap run.Snapshot, exp *ref.Result, pre map[string]b
 			ps = append(ps, mon.Problem{Sig: "recovered-file-differs", Msg: "after recovery " + p + " differs from the uninterrupted result"})
 		}
 	}
+	for p := range exp.AuditFor {
+		fp := mon.RootRel(root, p) + ".audit.json"
+		if _, ok := snap[fp]; !ok {
+			ps = append(ps, mon.Problem{Sig: "recovered-audit-file-missing", Msg: "after recovery " + p + ".audit.json is missing (an uninterrupted run writes it)"})
+		}
+	}
 	for _, p := range snap.Files() {
 		if pre[p] || want[p] || strings.HasSuffix(p, ".audit.json") || strings.Contains(p, "_scipipe_tmp") {
 			continue
@@ -413,5 +419,61 @@ func c03(args []string) {
 			c.Sample(map[string]interface{}{"topology": fc.tc.kind, "path_shape": fc.tc.shape, "gofunc": fc.tc.gof, "fault": fc.label, "crash": fc.crash, "state_after_crash": state, "tasks_already_final": len(finalIn1), "runs": runNo, "converged": true})
 		}
 	})
+	// streaming shape: FIFO leftovers must be refused too (also after a partial cleanup)
+	for rep := 0; rep < c.Pick(2, 8); rep++ {
+		root := c.CaseDir()
+		s := streamSpec("c03stream", 1, 2, true)
+		bh := vproto.Behaviours{"PROD": {"size": "70000", "pause": "400"}}
+		exp := ref.Eval(&ref.Input{Spec: s, Files: sourcesOf(s), Behav: bh})
+		desc := map[string]interface{}{"spec": s, "behav": bh, "scenario": "kill mid-stream; re-run; remove temp dirs only; re-run; remove FIFOs; re-run"}
+		cs := &run.Case{Root: root, Bin: c.Bin, Spec: s, Env: Cfg{Buf: 128, Procs: 4}.env(), Behav: bh, KillAtTraceLine: 2}
+		c.Eval(1)
+		r1 := cs.Run()
+		snap := mon.SnapRoot(root)
+		hasFifo := false
+		for _, e := range snap {
+			if e.Mode == "p" {
+				hasFifo = true
+			}
+		}
+		if r1.Signal == "" || !hasFifo {
+			c.Count("faults_not_fired", 1)
+			c.Drop(root)
+			continue
+		}
+		r2 := execSpec(c, root, s, Cfg{Buf: 128, Procs: 4, SoftSec: 6}, bh, true, 1)
+		if r2.Exit == 0 || r2.Returned {
+			c.Violation("leftovers-adopted:fifo-and-tempdirs", fmt.Sprintf("FIFO and temp directories of a killed streaming run were present, yet the re-run completed (exit %d)", r2.Exit), desc)
+			c.Drop(root)
+			continue
+		}
+		// partial cleanup: temp directories only
+		for _, p := range mon.SnapRoot(root).Leftovers() {
+			if mon.SnapRoot(root)[p].Mode == "d" {
+				os.RemoveAll(filepath.Join(root, p))
+			}
+		}
+		r3 := execSpec(c, root, s, Cfg{Buf: 128, Procs: 4, SoftSec: 6}, bh, true, 2)
+		if r3.Hang != "" && !strings.HasPrefix(r3.Hang, "deadlock") {
+			c.Inconclusive("streaming partial cleanup: " + r3.Hang)
+			c.Drop(root)
+			continue
+		}
+		if r3.Exit == 0 || r3.Returned || r3.Hang != "" {
+			c.Violation("leftovers-adopted:fifo", fmt.Sprintf("the FIFO of a killed streaming run was still present (only temp directories were removed), yet the re-run did not stop with an error (exit %d, returned %v, hang %q)", r3.Exit, r3.Returned, r3.Hang), desc)
+			c.Drop(root)
+			continue
+		}
+		cleanLeftovers(root)
+		r4 := execSpec(c, root, s, Cfg{Buf: 128, Procs: 4}, bh, true, 3)
+		ps := converged(root, mon.SnapRoot(root), exp, preRootSet(root, s))
+		if r4.Exit != 0 || len(ps) > 0 {
+			c.Violation("no-convergence:streaming", fmt.Sprintf("after full cleanup the streaming workflow exited %d: %v", r4.Exit, mon.Summarize(ps, 5)), desc)
+		} else {
+			c.Count("streaming_recoveries_converged", 1)
+			c.Nontrivial(fmt.Sprintf("streaming|%d", rep))
+		}
+		c.Drop(root)
+	}
 	c.Finish()
 }
